@@ -2,6 +2,7 @@
 import TaRs.Lemmas.Core.PercentagePriceOscillator
 import TaRs.Gen.PercentagePriceOscillator
 import TaRs.Lemmas.ExponentialMovingAverage
+import TaRs.Lemmas.Total.PercentagePriceOscillator
 namespace TaRs.Gen.PercentagePriceOscillator
 open TaRs TaRs.Rs
 variable {F : Type} [Scalar F]
@@ -9,11 +10,6 @@ variable {F : Type} [Scalar F]
 /-- the oscillator value as the code computes it: `(fast − slow) / slow * 100.0` -/
 def ppoVal (fast slow : F) : F :=
   Scalar.mul (Scalar.div (Scalar.sub fast slow) slow) (Scalar.lit 100 0)
-
-private theorem step_wf (e : ExponentialMovingAverage F) (x : F) (h : ExponentialMovingAverage.WF e) :
-    ExponentialMovingAverage.WF (ExponentialMovingAverage.step e x) := by
-  obtain ⟨r, hr, hw, _⟩ := ExponentialMovingAverage.next_total e x h
-  rw [ExponentialMovingAverage.next_eq] at hr; cases hr; exact hw
 
 /-- PPO wiring: `ppo = (EMA_fast(x) − EMA_slow(x)) / EMA_slow(x) * 100`, `signal = EMA_signal(ppo)`,
     `histogram = ppo − signal`, in the code's operation order. -/
@@ -49,23 +45,5 @@ theorem next_eq_let (s : PercentagePriceOscillator F) (x : F) :
        some ({ fast_ema := f, slow_ema := sl, signal_ema := sg },
              { ppo := p, signal := sg.current, histogram := Scalar.sub p sg.current })) :=
   next_eq s x
-
-theorem nextBar_eq (s : PercentagePriceOscillator F) (b : Bar F) :
-    s.nextBar b = s.next b.close := by
-  unfold nextBar
-  try simp only [gen_helper]
-  cases h : s.next b.close <;> simp [h]
-
-theorem next_total (s : PercentagePriceOscillator F) (x : F) (h : WF s) :
-    ∃ r, s.next x = some r ∧ WF r.1 ∧ r.1.fast_ema.period = s.fast_ema.period ∧
-      r.1.slow_ema.period = s.slow_ema.period ∧ r.1.signal_ema.period = s.signal_ema.period :=
-  ⟨_, next_eq s x, ⟨step_wf _ _ h.fast, step_wf _ _ h.slow, step_wf _ _ h.signal⟩,
-    ExponentialMovingAverage.step_period _ _, ExponentialMovingAverage.step_period _ _,
-    ExponentialMovingAverage.step_period _ _⟩
-
-theorem nextBar_total (s : PercentagePriceOscillator F) (b : Bar F) (h : WF s) :
-    ∃ r, s.nextBar b = some r ∧ WF r.1 ∧ r.1.fast_ema.period = s.fast_ema.period ∧
-      r.1.slow_ema.period = s.slow_ema.period ∧ r.1.signal_ema.period = s.signal_ema.period := by
-  rw [nextBar_eq]; exact next_total s b.close h
 
 end TaRs.Gen.PercentagePriceOscillator
